@@ -4,6 +4,7 @@ package main
 
 import (
 	"fmt"
+	"hash/fnv"
 	"sort"
 	"strconv"
 	"strings"
@@ -40,6 +41,21 @@ type env struct {
 	goneTx map[string]bool
 	l1     *uint64
 	lines  []string // oracle lines of the ops performed
+	key    string
+	keyN   int
+}
+
+// stateKey is a short stable digest of the op list performed so far (distinctness key of a case).
+func (e *env) stateKey() string {
+	if e.keyN != len(e.lines) {
+		h := fnv.New64a()
+		for _, l := range e.lines {
+			h.Write([]byte(l))
+			h.Write([]byte{'\n'})
+		}
+		e.key, e.keyN = fmt.Sprintf("%016x/%d", h.Sum64(), len(e.lines)), len(e.lines)
+	}
+	return e.key
 }
 
 func newEnv(or *hx.Oracle) *env {
